@@ -4,3 +4,13 @@ claim("C06",
       "Decides, over every CFG path of the SMTP MAIL handler, the DATA-read function and the function that calls Manager.Deliver, that (D1) the declared-SIZE branch is strict and its over-limit edge cannot reach the MAIL transition, (D2) a branch comparing the received byte count with MaxMessageBytes keeps every over-limit path away from Deliver, (D3) the over-limit path answers 5xx, resets the envelope and never enters QUIT. A necessary structural condition of C06 for all sizes and limits; not a proof of byte-exact boundaries.",
       "Trusts go/types+go/ssa construction (x/tools v0.29.0), that only Manager.Deliver adds mail (decided by C01), and that package-level error sentinels are non-nil.",
       "DESIGN.md section 4, C06")
+claim("C07",
+      "path-sensitive nil-state analysis over go/ssa (all CFG paths, interprocedural tuples), dominance by found-witness, field-writer sets; sibling cross-check over every storage.Store implementer",
+      "Decides the not-found contract and id discipline of both back-ends plus the suite's reference stub: no path of GetMessage yields (nil, nil); every success-capable return of MarkSeen/RemoveMessage is dominated by an id-equality branch or non-nil test of the message looked up by that id and ErrNotExist is returned otherwise; the memory store's id counter has a single incrementing writer under the write lock; removals are keyed by the requested id. Necessary structural conditions of C07 for every history; list order, round trips and observational equivalence are not decided.",
+      "Trusts go/ssa; assumes message containers hold no nil entries, error sentinels are non-nil, and library (T, error) functions return a usable T with a nil error.",
+      "DESIGN.md section 4, C07")
+claim("C14",
+      "path-sensitive nil-state analysis of every web.Handler against producer tuples over all Store implementers; sentinel-comparison path facts for 404 discipline; route/client table agreement; AST field coverage of JSON literals",
+      "Decides for every path of every registered web.Handler that Manager results are dereferenced only where non-nil (so a missing message cannot panic a handler), that storage.ErrNotExist never surfaces as 500 or as success without 404, that each client request matches a registered route with the body and JSON field the handler requires, that handlers address mailboxes through MailboxForAddress, and that JSON responses set every model field from the like-named metadata field. Does not decide equality of returned data or URL escaping.",
+      "Trusts go/ssa and the VTA/CHA resolution of interface calls to all module implementers; same assumptions as C07.",
+      "DESIGN.md section 4, C14")
